@@ -8,6 +8,7 @@
 From Apko Require Import Base.Prelude Base.C01Lib Model.Repro Spec.ReproSpec Proofs.ReproProofs
   Model.BuildSteps Proofs.BuildStepsProofs Model.Repro2 Proofs.Repro2Proofs
   Generated.C01Calls Generated.C10Steps.
+From Apko Require Generated.C08Caches.
 From Coq Require Import Permutation Lia ZArith.
 Open Scope string_scope. Open Scope list_scope.
 
@@ -109,3 +110,28 @@ Qed.
 (* ---- the limit of InstallPackages' goroutine group ----------------------------------- *)
 Lemma install_limit_extra_ok : limit_extra_ok c01_install_limit_extra = true.
 Proof. reflexivity. Qed.
+
+(* ---- wave 3 ---------------------------------------------------------------------------- *)
+(* ImageLayoutToLayer opens the layer file truncating (or new) at every call site *)
+Lemma layer_file_opens_fresh : forallb opens_fresh c01_layer_file_open = true.
+Proof. reflexivity. Qed.
+
+Theorem layer_file_generated : forall fl, In fl c01_layer_file_open ->
+  forall (A : Type) (old old' new : list A), file_after fl old new = new /\ file_after fl old new = file_after fl old' new.
+Proof.
+  intros fl Hin A old old' new. pose proof layer_file_opens_fresh as H. rewrite forallb_forall in H. specialize (H fl Hin).
+  rewrite !(file_after_fresh fl _ new H). split; reflexivity.
+Qed.
+
+(* BuildIndex does not (finding C01-F3): what a longer earlier out.tar held behind the new archive stays *)
+Lemma index_file_keeps_tail :
+  exists fl, In fl c01_index_file_open /\ exists old new : list nat, file_after fl old new <> new.
+Proof.
+  exists ["O_CREATE"; "O_RDWR"]. split; [vm_compute; auto|]. exists [1; 2; 3], [9]. vm_compute. discriminate.
+Qed.
+
+(* the process-wide caches of the resolver hand out copies (read by C08's generator) *)
+Lemma caches_hand_out_copies :
+  forallb (String.eqb "maps.Clone") C08Caches.dq_get_returns = true /\
+  forallb (String.eqb "clone") C08Caches.resolver_get_returns = true.
+Proof. split; reflexivity. Qed.
